@@ -29,6 +29,16 @@ import (
 type yieldParent struct {
 	m     map[string][]byte
 	sched *scheduler
+	free  func() bool // is the wrapper's mutex free right now?
+}
+
+// yield parks the caller inside a parent call only if it does NOT hold the wrapper's mutex. While the
+// mutex is held nobody else can enter the wrapper anyway, so parking there adds no interleaving - and a
+// parked client that holds no lock can never block a released one, so the scheduler needs no timeouts.
+func (p *yieldParent) yield() {
+	if p.free != nil && p.free() {
+		p.sched.park("parent")
+	}
 }
 
 func (p *yieldParent) GetStoreType() stypes.StoreType { return stypes.StoreTypeDB }
@@ -37,7 +47,7 @@ func (p *yieldParent) CacheWrapWithTrace(_ io.Writer, _ stypes.TraceContext) sty
 	panic("not used")
 }
 func (p *yieldParent) Get(key []byte) []byte {
-	p.sched.park("parent")
+	p.yield()
 	v, ok := p.m[string(key)]
 	if !ok {
 		return nil
@@ -45,16 +55,16 @@ func (p *yieldParent) Get(key []byte) []byte {
 	return append([]byte{}, v...)
 }
 func (p *yieldParent) Has(key []byte) bool {
-	p.sched.park("parent")
+	p.yield()
 	_, ok := p.m[string(key)]
 	return ok
 }
 func (p *yieldParent) Set(key, value []byte) {
-	p.sched.park("parent")
+	p.yield()
 	p.m[string(key)] = append([]byte{}, value...)
 }
 func (p *yieldParent) Delete(key []byte) {
-	p.sched.park("parent")
+	p.yield()
 	delete(p.m, string(key))
 }
 func (p *yieldParent) Iterator(start, end []byte) stypes.Iterator        { panic("not used") }
@@ -163,6 +173,7 @@ func executeConc(tr *Trace) (*core.Result, error) {
 		}
 	}
 	store := cachekv.NewStore(parent)
+	parent.free = store.SimMutexFree
 	var hist []histOp
 	cachekv.SimYield = func(st *cachekv.Store, op string) {
 		if st == store {
@@ -214,7 +225,6 @@ func executeConc(tr *Trace) (*core.Result, error) {
 	}
 	var schedule []int
 	choice := 0
-	blocked := 0
 	next := func(n int) int {
 		if n <= 1 {
 			return 0
@@ -237,8 +247,6 @@ func executeConc(tr *Trace) (*core.Result, error) {
 		for c := 0; c < nc; c++ {
 			switch state[c] {
 			case "done":
-			case "blocked":
-				allDone = false
 			case "prelock":
 				allDone = false
 				if store.SimMutexFree() {
@@ -253,16 +261,6 @@ func executeConc(tr *Trace) (*core.Result, error) {
 			break
 		}
 		if len(runnable) == 0 {
-			if blocked > 0 {
-				// clients blocked on the real mutex proceed on their own once it is released: wait for them
-				select {
-				case ev := <-s.events:
-					state[ev.client] = ev.point
-					blocked--
-					continue
-				case <-time.After(2 * time.Second):
-				}
-			}
 			res.Violations = append(res.Violations, core.Violation{Property: "C15", Oracle: "deadlock", Step: len(schedule),
 				Detail: fmt.Sprintf("no client can proceed: states %v", state)})
 			break
@@ -272,23 +270,12 @@ func executeConc(tr *Trace) (*core.Result, error) {
 		res.Stats.Transition(fmt.Sprintf("%s>%d", state[pick], pick))
 		s.cur = pick
 		s.resume[pick] <- struct{}{}
-		// the released client runs until its next scheduling point
+		// the released client runs until its next scheduling point (it cannot block: no parked client holds the mutex)
 		select {
 		case ev := <-s.events:
 			state[ev.client] = ev.point
-			if ev.client != pick {
-				// a previously blocked client got through
-				blocked--
-				// still wait for the picked one
-				ev2 := <-s.events
-				state[ev2.client] = ev2.point
-			}
-		case <-time.After(300 * time.Millisecond):
-			// the client is stuck on the real mutex while its holder is parked (only possible if the code
-			// takes the lock at a place without a scheduling point): let the others go on
-			state[pick] = "blocked"
-			blocked++
-			res.Stats.Probe("client_blocked_outside_scheduling_points")
+		case <-time.After(60 * time.Second):
+			return nil, fmt.Errorf("scheduler watchdog: client %d did not reach a scheduling point within 60 s (states %v)", pick, state)
 		}
 	}
 	s.active = false
